@@ -7,11 +7,16 @@ Mods1 == <<"before", "after", "since", "until", "around", "about", "by", "from",
 Mods2 == <<"", "around", "about", "approximately">>
 Exprs == <<"3pm", "june 5", "yesterday", "2016-11-07", "monday", "5:30 am", "next week", "2018", "the end of the month", "3 days ago", "april 25-31", "feb 20-29", "june 28 - 31">>
 Pres == <<"", "I have been sick ", "call me on friday ", "see you tomorrow, ", "  ">>
+(* an entity, a suffix modifier ("or after", "or later", "and after") and possibly another entity *)
+Suffixes == <<" or after", " or later", " and after", " or  later">>
+Tails == <<"", " May 5th", " next week", " 3pm", " 2019", " xyz">>
+Heads == <<"in 2018", "tomorrow", "on 1/1/2016", "monday", "june 5">>
 VARIABLES c, pc
 vars == <<c, pc>>
 Init == /\ c \in { [text |-> Pres[p] \o Mods1[a] \o (IF Mods2[b] = "" THEN "" ELSE " " \o Mods2[b]) \o " " \o Exprs[x], culture |-> "en-us", ref |-> "2019-03-10T12:00:00"]
                    : p \in 1..Len(Pres), a \in 1..Len(Mods1), b \in 1..Len(Mods2), x \in 1..Len(Exprs) }
                  \cup { [text |-> Pres[p] \o Exprs[x], culture |-> "en-us", ref |-> "2019-03-10T12:00:00"] : p \in 1..Len(Pres), x \in 1..Len(Exprs) }
+                 \cup { [text |-> Heads[h] \o Suffixes[q] \o Tails[t], culture |-> "en-us", ref |-> "2019-03-10T12:00:00"] : h \in 1..Len(Heads), q \in 1..Len(Suffixes), t \in 1..Len(Tails) }
         /\ pc = "gen"
 Emit == pc = "gen" /\ pc' = "done" /\ UNCHANGED c
 Next == Emit
